@@ -196,7 +196,7 @@ def run(ctx, exe, tier, seed, n=None, rows=None, timeout_s=None):
     """Returns (issues, stats)."""
     all_rows = table(ctx) if rows is None else rows
     if n is None:
-        n = 900 if tier == "quick" else len(all_rows)
+        n = 2400 if tier == "quick" else len(all_rows)
     picked = sample(all_rows, n, seed)
     tpath = os.path.join(ctx.work, "selfcal-rows.txt")
     write_table(tpath, picked)
@@ -205,7 +205,7 @@ def run(ctx, exe, tier, seed, n=None, rows=None, timeout_s=None):
              "events": 0, "episodes": 0, "crashes": 0, "tlc_generated": 0}
     cfg_by_case = {"run:%d:%d" % (seed, i): {k: r[k] for k in FIELDS}
                    for i, r in enumerate(picked)}
-    env = {"SC_TIMEOUT": str(timeout_s or 60)}
+    env = {"SC_TIMEOUT": str(timeout_s or os.environ.get("SC_TIMEOUT", 60))}
     paths, crashes = common.run_sharded(
         exe, lambda a, b: ["run", tpath, str(seed), str(a), str(b)],
         len(picked), ctx.work, "selfcal", _case_index, env=env,
